@@ -72,6 +72,33 @@ def shapes():
                     "ENTITY ent;\n a : INTEGER;\nEND_ENTITY;\nTYPE t_sel = SELECT (ent, t_int);\nEND_TYPE;\n"
                     "FUNCTION fun (x : INTEGER) : INTEGER;\n LOCAL\n  y : INTEGER;\n END_LOCAL;\n %s := x + 1;\n y := %s + x;\n IF %s > 2 THEN\n  y := 1;\n END_IF;\n RETURN (y);\nEND_FUNCTION;\n"
                     "ENTITY e2;\n b : INTEGER;\nWHERE\n w1 : b > %s;\nEND_ENTITY;\nEND_SCHEMA;\n" % (nm, nm, nm, nm), None))
+    # many diagnostics, long quoted names: buffered (-B) and with every warning class
+    many = "SCHEMA s;\n" + "".join("ENTITY x%d; a : nosuchtype%d; END_ENTITY;\n" % (i, i) for i in range(130)) + "END_SCHEMA;\n"
+    longn = "SCHEMA s;\n" + "".join("ENTITY y%d; a : %s%d; END_ENTITY;\n" % (i, "n" * 1500, i) for i in range(6)) + "END_SCHEMA;\n"
+    for pre in ("optB_", "optw_"):
+        out.append((pre + "many_errors", many, None))
+        out.append((pre + "long_names_in_errors", longn, None))
+        out.append((pre + "valid", BASE % "CONSTANT c : INTEGER := 1;\nEND_CONSTANT;", None))
+    # literals that end with the line or the file
+    for nm, tail in (("encoded_unterminated_line", "CONSTANT c : STRING := \"0000004A;\nEND_CONSTANT;"), ("binary_unterminated", "CONSTANT c : BINARY := %;\nEND_CONSTANT;"),
+                     ("encoded_empty", "CONSTANT c : STRING := \"\";\nEND_CONSTANT;"), ("encoded_odd", "CONSTANT c : STRING := \"0000004\";\nEND_CONSTANT;")):
+        out.append((nm, BASE % tail, None))
+    out.append(("quote_at_eof", "SCHEMA s;\nENTITY e;\n a : INTEGER;\nEND_ENTITY;\nEND_SCHEMA;\n\"", None))
+    out.append(("apostrophe_at_eof", "SCHEMA s;\nENTITY e;\n a : INTEGER;\nEND_ENTITY;\nEND_SCHEMA;\n'", None))
+    out.append(("percent_at_eof", "SCHEMA s;\nENTITY e;\n a : INTEGER;\nEND_ENTITY;\nEND_SCHEMA;\n%", None))
+    out.append(("remark_open_at_eof", "SCHEMA s;\nENTITY e;\n a : INTEGER;\nEND_ENTITY;\nEND_SCHEMA;\n(*", None))
+    # identifiers around the sizes of the generators' name buffers (open finding from the smallest one up)
+    for n in (100, 239, 240, 241, 300, 1000, 5000):
+        out.append(("long_ident_%d" % n, "SCHEMA s;\nENTITY " + "e" * n + ";\n a : INTEGER;\nEND_ENTITY;\nTYPE " + "t" * n + " = INTEGER;\nEND_TYPE;\nEND_SCHEMA;\n",
+                    ("long_ident", n)))
+    # built-in functions with too few / too many arguments
+    for fn in ("NVL", "ABS", "SIZEOF", "EXISTS", "TYPEOF", "USEDIN", "ROLESOF", "VALUE", "FORMAT", "LENGTH", "ODD", "HIBOUND", "LOBOUND", "BLENGTH", "VALUE_IN", "VALUE_UNIQUE"):
+        for args in ("", "a", "a, a, a, a"):
+            out.append(("builtin_args_%s_%d" % (fn.lower(), len(args)), "SCHEMA s;\nENTITY e;\n a : OPTIONAL INTEGER;\nWHERE\n w : EXISTS (%s (%s));\nEND_ENTITY;\nEND_SCHEMA;\n" % (fn, args), None))
+    # INCLUDE: a missing file, nine files one after the other, nine files nested
+    out.append(("incl_missing", "SCHEMA s;\nINCLUDE 'nosuchfile.exp';\nEND_SCHEMA;\n", None))
+    out.append(("incl_sequence", "SCHEMA s;\n" + "".join("INCLUDE 'inc%d.exp';\n" % j for j in range(1, 10)) + "END_SCHEMA;\n", None))
+    out.append(("incl_nested", "SCHEMA s;\nINCLUDE 'inc1.exp';\nEND_SCHEMA;\n", None))
     # valid schemas that declare no entity or type (exp2cxx then opens fewer files)
     out.append(("schema_nothing", "SCHEMA nothing;\nEND_SCHEMA;\n", ("valid", 0)))
     out.append(("schema_only_function", "SCHEMA onlyfun;\nFUNCTION f (x : INTEGER) : INTEGER;\n RETURN (x);\nEND_FUNCTION;\nEND_SCHEMA;\n", ("valid", 0)))
@@ -210,7 +237,12 @@ def main(tier, seed):
         f = os.path.join(wd, "in.exp")
         open(f, "w", encoding="latin-1").write(text)
         limit = 120 if cls.startswith("shipped") else 60
-        rc, so, se = sh([os.path.join(bdir, "bin", tool), f], cwd=wd, timeout=limit * 10, cpu=limit,
+        # a case named optB_* is run with -B (diagnostics buffered and sorted), optw_* with every warning class on
+        opts = ["-B"] if name.startswith("optB_") else (["-w", "all"] if name.startswith("optw_") else [])
+        if name.startswith("incl_"):
+            for j in range(1, 10):
+                open(os.path.join(wd, "inc%d.exp" % j), "w").write("INCLUDE 'inc%d.exp';\n" % (j + 1) if name == "incl_nested" else "ENTITY inc%d_e;\n a : INTEGER;\nEND_ENTITY;\n" % j)
+        rc, so, se = sh([os.path.join(bdir, "bin", tool)] + opts + [f], cwd=wd, timeout=limit * 10, cpu=limit,
                         env={"ASAN_OPTIONS": "detect_leaks=0:abort_on_error=0:exitcode=99", "UBSAN_OPTIONS": "print_stacktrace=1:halt_on_error=1:exitcode=98"})
         shutil.rmtree(wd, ignore_errors=True)
         return ci, tool, rc, (so + se)
